@@ -45,8 +45,24 @@ DESC = {
  "S39": ("C19", "`Interval::hours()` gains `% 24` (Display only)", "interval with an hour part of 24 or more"),
  "S40": ("C20", "COPY TO decides NULL by the display text \"NULL\"", "a VARCHAR value that is exactly 'NULL'"),
  "S41": ("C20", "COPY TO no longer truncates the export file", "export to a path that already holds a longer file"),
+ "S42": ("C03", "a compaction whose output is empty no longer emits DeleteDV for the replaced row-sets", "table with >= 2 row-sets emptied by DELETE, compacted to nothing, two reopen cycles without a statement (row-set ids restart), then INSERT: the stale delete vector hides the new rows"),
+ "S43": ("C04", "opening a database without committed tables appends to the manifest instead of rewriting it", "crash tearing the manifest append of the very first statement, a successful recovery, then one more open (the torn record is now mid-file)"),
+ "S44": ("C08", "the vacuum horizon is the newest pinned epoch instead of the oldest", "reader pinned at E, compaction/DROP at E+1, a second transaction pinned later, then a vacuum pass"),
+ "S45": ("C09", "DELETE releases the per-table lock after writing the delete vectors, before the manifest commit", "a compactor pass reaching the table between 'DVs written' and 'epoch published'"),
+ "S46": ("C10", "the compactor pins its snapshot once per pass instead of under each table's lock", "a DELETE (or DROP) committing after the pass started and before the compactor locks that table"),
+ "S47": ("C07", "compaction emits DeleteDV for every row-set of the table, not only the merged ones", "a compaction that selects a strict subset of the row-sets while a skipped row-set carries a delete vector"),
+ "S48": ("C01", "`merge-join` / `sort-agg` accept inputs ordered descending on the key (`is_clustered_by`)", "equi-join of two derived tables sorted DESC on the join key, with different key sets"),
+ "S49": ("C13", "`start_rowid` binary-searches the block index (`partition_point`) instead of walking it", "duplicate keys whose run straddles a block boundary, inclusive lower bound equal to that key"),
+ "S50": ("C15", "an operator's Err item is sent with `try_broadcast` (dropped when the channel is full)", "an error raised when the consumer is >= 16 chunks behind"),
+ "S51": ("C18", "short-read loop zero-fills a block past EOF; the checksum type is read from the (zero) footer", "a .col file truncated at a block boundary (or to 0 bytes)"),
+ "S52": ("C10", "reverse of repair db497b9: the binder fetches the table by id with unwrap() after resolving its name", "DROP TABLE by another session between the binder's two catalog lookups (multi-thread runtime)"),
 }
 STRENGTHENED = {
+ "S36": "not caught until the pruning defect behind the open column-not-found finding was repaired (5f490d5, b6fa5f4) and the signature split: a column-not-found panic under an *unresolved* subquery form is a consequence of that form, one after a *successful* unnesting is its own class (`…:unnested-subquery`)",
+ "S42": "missed by the first C03 (every reopen was followed by an INSERT, tables were rarely emptied; C07 caught it); caught after the empty-out episode (several row-sets, DELETE all, compaction passes, two silent reopens, INSERT, check) was added",
+ "S43": "missed by the first C04 (a recovered state was probed with new statements but never opened a second time); caught after every recovered state is shut down and opened again",
+ "S46": "missed by the first C10 (1-2 compactor passes, no gates; C09 caught it); caught after the compaction-heavy variant of the current-thread leg (several row-sets, pauses, 3-4 passes, one directed gate) was added",
+ "S48": "missed by the first C01 / C02 (derived tables were never sorted without LIMIT and never on both sides of a join); caught after the `sorted_join` shape was added to the generator",
  "S06": "missed by the first C06 (runs were 1..40 long); caught after the `longruns` pattern (runs of 127/128/129/…/16385) was added",
  "S15": "missed by the first C15 (one disk layout with a 1 MB row-set budget); caught after the disk cases use tiny row-set budgets too",
  "S20": "missed by the first C07 (full scans only; C13 caught it); caught by C07 after key-range reads and range counts were added to its per-step checks",
@@ -68,8 +84,8 @@ for d in sorted(glob.glob(os.path.join(HERE, "seeded", "S*"))):
         sigs = re.findall(r"^    (\S+) \|", txt, re.M)
         results.extend(sigs)
     meta_p = os.path.join(d, "meta.json")
-    meta = json.load(open(meta_p)) if os.path.exists(meta_p) and sid == "S01" else {}
-    if sid == "S01":
+    meta = json.load(open(meta_p)) if os.path.exists(meta_p) and sid in ("S01", "S52") else {}
+    if sid in ("S01", "S52"):
         caught = meta.get("caught_by", caught)
     else:
         meta = dict(id=sid, property=prop, origin="fresh sub-agent given only the property text and a scratch worktree",
